@@ -390,10 +390,20 @@ fn check_wall_result(
         }
         Ok(Some(z)) => {
             let got = (inst(&z.naive_utc()), z.naive_utc().time().nanosecond() as i64);
+            if z.naive_utc() == NaiveDateTime::MIN {
+                tl.add(&format!("{what}:result exactly MIN_UTC"));
+            }
+            if z.naive_utc() == NaiveDateTime::MAX {
+                tl.add(&format!("{what}:result exactly MAX_UTC"));
+            }
             if off_of(z) != off as i64 {
                 fl.hit(c, &format!("{what} changed the offset"), key);
             }
-            if !in_utc_range(got.0, got.1) && (lo_filter || hi_filter) {
+            // only the side(s) this operation filters (an input that is itself a leap-second reading in
+            // the last second of MAX compares above MAX_UTC and may be returned by the other operations)
+            let lo_bad = lo_filter && got.0 < s_min();
+            let hi_bad = hi_filter && (got.0 > s_max() || (got.0 == s_max() && got.1 >= NS));
+            if lo_bad || hi_bad {
                 fl.hit(c, &format!("{what} returned a value outside MIN_UTC..=MAX_UTC"), &format!("{key} -> {}", enc_z(z)));
             }
             if expz != Some(got) {
@@ -731,6 +741,11 @@ pub fn run(c: &mut Ctx) {
             let base = end_value(c.rng.below(4) as usize);
             let off = gen_off(c);
             (mk_n(base.date(), gen_secs(c, off), gen_frac(c)), off)
+        } else if k % 3 == 1 && c.rng.chance(1, 2) {
+            // the time of day of MIN_UTC / MAX_UTC, so that exact distances land exactly on a range end
+            let off = gen_off(c);
+            let d = gen_day(c);
+            (if c.rng.chance(1, 2) { mk_n(d, 0, 0) } else { mk_n(d, 86_399, 999_999_999) }, off)
         } else {
             gen_value(c)
         };
